@@ -259,6 +259,18 @@ def copyOutSymlink (ps : Path) (dest : Path) (v : J) (p : Path) (t : LinkT) (fs 
       | (some lp, ap) => (.str (renderPath ap), symlinkAt fs dest (.abs lp))
       | (none, ap) => (.str (renderPath ap), symlinkAt fs dest (.rel (relPath dest.dropLast ap)))
 
+/-- `recoverMovedOutFile`: the recorded path holds nothing.  If it lies inside
+the pipestance and its destination already holds a file or directory (not a
+symlink) — an earlier post-process was interrupted between the rename into
+outs/ and leaving the symlink behind — the link is put in place now and the
+destination is reported; otherwise the output is reported as null. -/
+def recoverMoved (ps dest p : Path) (fs : FS) : J × FS :=
+  if !inside ps p then (.null, fs) else
+  match fs.get dest with
+  | some (.file _) => (.str (renderPath dest), symlinkAt fs p (.rel (relPath p.dropLast dest)))
+  | some .dir => (.str (renderPath dest), symlinkAt fs p (.rel (relPath p.dropLast dest)))
+  | _ => (.null, fs)
+
 /-- `moveOutFile` for a non-null value; `name` = `GetOutFilename`. -/
 def moveOutFile (ps outs : Path) (name : String) (v : J) (fs : FS) : J × FS :=
   match v with
@@ -268,7 +280,7 @@ def moveOutFile (ps outs : Path) (name : String) (v : J) (fs : FS) : J × FS :=
     | none => (.null, fs)
     | some p =>
       match fs.get p with
-      | none => (.null, fs)
+      | none => recoverMoved ps (outs ++ [name]) p fs
       | some (.link t) => copyOutSymlink ps (outs ++ [name]) v p t (mkdirAll fs outs)
       | some _ =>
         let dest := outs ++ [name]
